@@ -203,11 +203,13 @@ theorem intToDec_ne_nil (i : Int) : intToDec i ≠ [] := by
 
 /-! ## one column -/
 
-/-- characters a field name (or a modifier) must not contain for the printed form to be readable -/
-def forbidden : List Char := [',', ':', ';', '!', '/', '<', '(', ')']
+/-- characters a field name must not contain for the printed form to be readable: the separators of
+columns, width and sections, the modifier mark, and `<` (of `<-`; a lone `<` would do no harm) -/
+def forbidden : List Char := [',', ':', ';', '/', '<']
 
-/-- a name the serialised form can express: none of `, : ; ! / < ( )`, no blank at either end -/
-def NameOk (s : List Char) : Prop := (∀ c ∈ s, c ∉ forbidden) ∧ EdgeOk s
+/-- a name the serialised form can express: none of `, : ; / <`, no blank at either end, no `!` at the
+end (an inner `!`, parentheses, `-` … are fine: the break-by mark is a *trailing* `!`) -/
+def NameOk (s : List Char) : Prop := (∀ c ∈ s, c ∉ forbidden) ∧ EdgeOk s ∧ s.getLast? ≠ some '!'
 
 theorem NameOk.not_mem {s : List Char} (h : NameOk s) {c : Char} (hc : c ∈ forbidden) : c ∉ s :=
   fun hm => h.1 c hm hc
@@ -220,12 +222,16 @@ def modForbidden : List Char := [',', ':', ';', '!', '<']
 def ModOk (m : List Char) : Prop :=
   (∀ c ∈ m, c ∉ modForbidden) ∧ (∀ c, m.getLast? = some c → isSpace c = false)
 
-theorem modForbidden_sub {x : Char} (h : x ∈ modForbidden) : x ∈ forbidden ∧ x ≠ '/' := by
-  simp only [modForbidden, List.mem_cons, List.not_mem_nil, or_false] at h
-  rcases h with rfl | rfl | rfl | rfl | rfl <;> exact ⟨by decide, by decide⟩
+/-- the separators proper: in neither a name nor a modifier -/
+def sepForbidden : List Char := [',', ':', ';', '<']
 
-theorem NameOk.modOk {s : List Char} (h : NameOk s) : ModOk s :=
-  ⟨fun c hc hf => h.1 c hc (modForbidden_sub hf).1, h.2.2⟩
+theorem sepForbidden_sub {x : Char} (h : x ∈ sepForbidden) :
+    x ∈ forbidden ∧ x ∈ modForbidden ∧ x ≠ '/' ∧ x ≠ '!' := by
+  simp only [sepForbidden, List.mem_cons, List.not_mem_nil, or_false] at h
+  rcases h with rfl | rfl | rfl | rfl <;> exact ⟨by decide, by decide, by decide, by decide⟩
+
+theorem modOk_of_all (s : List Char) (h : ∀ c ∈ s, c ∉ modForbidden ∧ isSpace c = false) : ModOk s :=
+  ⟨fun c hc => (h c hc).1, fun c hc => (h c (List.mem_of_getLast? hc)).2⟩
 
 theorem parseWidthNums_dec (ns : List Nat) : parseWidthNums (ns.map natToDec) = .ok ns := by
   induction ns with
@@ -398,13 +404,12 @@ def ColNameOk (c : Col) : Prop := NameOk c.field.name ∧ ∀ m, c.modifier = so
 theorem splitArrow_none (s : List Char) (h : '<' ∉ s) : splitArrow s = (s, Option.none) := by
   simp [splitArrow, findArrow_none s h]
 
-theorem splitBreak_brkStr (x : List Char) (b : Bool) (h : '!' ∉ x) : splitBreak (x ++ brkStr b) = (x, b) := by
+theorem splitBreak_brkStr (x : List Char) (b : Bool) (h : x.getLast? ≠ some '!') :
+    splitBreak (x ++ brkStr b) = (x, b) := by
   unfold splitBreak brkStr endsWith
   cases b with
   | true => simp
-  | false =>
-    have : x.getLast? ≠ some '!' := fun e => h (List.mem_of_getLast? e)
-    simp [this]
+  | false => simp [h]
 
 theorem splitModifier_modStr (name : List Char) (m : Option (List Char)) (h : '/' ∉ name) :
     splitModifier (name ++ modStr m) = (name, m) := by
@@ -433,15 +438,36 @@ theorem mem_modStr (x : Char) (m : Option (List Char)) (h : x ∈ modStr m) :
     · exact Or.inl h
     · exact Or.inr ⟨mod, rfl, h⟩
 
-theorem nameMod_not_mem (c : Col) (h : ColNameOk c) (x : Char) (hx : x ∈ modForbidden) :
+theorem nameMod_not_mem (c : Col) (h : ColNameOk c) (x : Char) (hx : x ∈ sepForbidden) :
     x ∉ c.field.name ++ modStr c.modifier := by
-  obtain ⟨hf, hs⟩ := modForbidden_sub hx
+  obtain ⟨hf, hmf, hs, _⟩ := sepForbidden_sub hx
   intro hm
   rcases List.mem_append.mp hm with hm | hm
   · exact h.1.not_mem hf hm
   · rcases mem_modStr x _ hm with e | ⟨mod, hmod, hx⟩
     · exact hs e
-    · exact (h.2 mod hmod).1 x hx ‹x ∈ modForbidden›
+    · exact (h.2 mod hmod).1 x hx hmf
+
+/-- name and modifier together do not end in `!` -/
+theorem nameMod_last (c : Col) (h : ColNameOk c) : (c.field.name ++ modStr c.modifier).getLast? ≠ some '!' := by
+  cases hm : c.modifier with
+  | none => simpa [modStr] using h.1.2.2
+  | some m =>
+    intro e
+    simp only [modStr] at e
+    rw [List.getLast?_append] at e
+    cases hl : m.getLast? with
+    | none =>
+      have : m = [] := by simpa using hl
+      subst this
+      simp at e
+    | some y =>
+      have h1 : ('/' :: m).getLast? = some y := by
+        rw [show '/' :: m = ['/'] ++ m from rfl, List.getLast?_append, hl]; rfl
+      rw [h1] at e
+      simp only [Option.some_or, Option.some.injEq] at e
+      subst e
+      exact (h.2 m hm).1 '!' (List.mem_of_getLast? hl) (by decide)
 
 theorem parseHead_colHead (c : Col) (h : ColNameOk c) (w : PWidth) :
     parseHead (colHead c) w = { pcolOf c with width := w } := by
@@ -453,7 +479,7 @@ theorem parseHead_colHead (c : Col) (h : ColNameOk c) (w : PWidth) :
     · unfold brkStr at hm; split at hm <;> simp at hm
   rw [splitArrow_none _ harrow]
   simp only
-  rw [splitBreak_brkStr _ _ (nameMod_not_mem c h '!' (by decide))]
+  rw [splitBreak_brkStr _ _ (nameMod_last c h)]
   simp only
   rw [splitModifier_modStr _ _ (h.1.not_mem (by decide))]
   rfl
@@ -477,7 +503,7 @@ theorem edgeOk_cons (x : Char) (s : List Char) (hx : isSpace x = false) (hs : Ed
 
 theorem colHead_edgeOk (c : Col) (h : ColNameOk c) : EdgeOk (colHead c) := by
   unfold colHead
-  refine (h.1.2.append ?_).append ?_
+  refine (h.1.2.1.append ?_).append ?_
   · cases hm : c.modifier with
     | none => exact edgeOk_of_all _ (by simp [modStr])
     | some m =>
@@ -500,8 +526,9 @@ theorem colHead_edgeOk (c : Col) (h : ColNameOk c) : EdgeOk (colHead c) := by
     · exact edgeOk_of_all _ (by intro x hx; simp at hx; subst hx; decide)
     · exact edgeOk_of_all _ (by simp)
 
-theorem colHead_not_mem (c : Col) (h : ColNameOk c) (x : Char) (hf : x ∈ modForbidden) (h2 : x ≠ '!') :
+theorem colHead_not_mem (c : Col) (h : ColNameOk c) (x : Char) (hf : x ∈ sepForbidden) :
     x ∉ colHead c := by
+  have h2 : x ≠ '!' := (sepForbidden_sub hf).2.2.2
   unfold colHead
   intro hm
   rcases List.mem_append.mp hm with hm | hm
@@ -547,7 +574,7 @@ theorem widthStr_edgeOk (c : Col) : EdgeOk (widthStr c) := by
 
 theorem parseCol_colToStr (c : Col) (h : ColNameOk c) : parseCol (colToStr c) = .ok (pcolOf c) := by
   unfold parseCol colToStr
-  rw [splitOn_append _ _ _ (colHead_not_mem c h ':' (by decide) (by decide)),
+  rw [splitOn_append _ _ _ (colHead_not_mem c h ':' (by decide)),
     splitOn_no_sep _ _ (widthStr_not_mem c ':' (by decide) (by decide) (by decide) (by decide))]
   simp only [List.map_cons, List.map_nil, strip_id _ (colHead_edgeOk c h), strip_id _ (widthStr_edgeOk c)]
   rw [parseWidth_widthStr]
@@ -557,10 +584,10 @@ theorem parseCol_colToStr (c : Col) (h : ColNameOk c) : parseCol (colToStr c) = 
 theorem colToStr_not_mem (c : Col) (h : ColNameOk c) (x : Char) (hx : x = ',' ∨ x = ';') : x ∉ colToStr c := by
   unfold colToStr
   intro hm
-  have hf : x ∈ modForbidden := by rcases hx with rfl | rfl <;> decide
+  have hf : x ∈ sepForbidden := by rcases hx with rfl | rfl <;> decide
   simp only [List.mem_append, List.mem_cons] at hm
   rcases hm with hm | hm | hm
-  · exact colHead_not_mem c h x hf (by rcases hx with rfl | rfl <;> decide) hm
+  · exact colHead_not_mem c h x hf hm
   · rcases hx with rfl | rfl <;> cases hm
   · refine widthStr_not_mem c x ?_ ?_ ?_ ?_ hm <;> rcases hx with rfl | rfl <;> decide
 
